@@ -289,9 +289,6 @@ def _kw_sig(name, kwds):
         out['window'] = 'none_or_zero' if not kwds['generations'] else 'positive'
     if name == 'NormalizedCostTarget':
         out['fval'] = 'None' if kwds['fval'] is None else ('zero' if kwds['fval'] == 0 else 'nonzero')
-    for k in ('tolerance', 'ftol', 'gtol', 'xtol'):
-        if k in kwds and kwds[k] == INF:
-            out[k] = 'inf'
     return out
 
 
@@ -622,7 +619,7 @@ def spec_from_json(o):
     return (o[0], tuple(spec_from_json(ch) for ch in o[1]))
 
 
-def hazards(spec, objs=None, leaves=None):
+def hazards(spec):
     """structural features of an expression, computed from the spec and from plain tuple
     equality of the constructed members (When/And/Or are tuple subclasses):
       unary_compound_member : a node whose only member is itself a compound
@@ -860,7 +857,30 @@ REAL_CONDITIONS = [
     ('EvaluationLimits', {'generations': 3, 'evaluations': None}), ('EvaluationLimits', {'generations': None, 'evaluations': 20}),
     ('EvaluationLimits', {'generations': None, 'evaluations': None}),
     ('SolverInterrupt', {}),
+    # compounds: kwds is the list of members
+    ('Or', [('VTR', {'tolerance': 0.01, 'target': 0.0}), ('ChangeOverGeneration', {'tolerance': 1e-6, 'generations': 2})]),
+    ('And', [('EvaluationLimits', {'generations': 3, 'evaluations': None}), ('PopulationSpread', {'tolerance': 4.0})]),
+    ('When', [('SolutionImprovement', {'tolerance': 0.75})]),
+    ('And', [('Or', [('SolverInterrupt', {}), ('VTR', {'tolerance': 0.5, 'target': 1.0})]),
+             ('NormalizedChangeOverGeneration', {'tolerance': 0.5, 'generations': 3})]),
 ]
+
+
+def make_condition(name, kwds):
+    mt = _mt()
+    if name in KINDS:
+        return getattr(mt, name)(*[make_condition(n, k) for n, k in kwds])
+    return getattr(mt, name)(**kwds)
+
+
+def ref_condition(name, kwds, s):
+    """documented truth on a stand-in, compounds through ref.combine; None if any member is undecided"""
+    if name in KINDS:
+        parts = [ref_condition(n, k, s) for n, k in kwds]
+        if any(p is None for p in parts):
+            return None
+        return ref.combine(name, [(p, frozenset()) for p in parts])[0]
+    return ref_any(name, kwds, s)
 
 
 def make_solver(name, cost_name, seed):
@@ -902,7 +922,7 @@ def real_case(solver_name, cost_name, seed, steps, T=None, only=None):
             for ci, (name, kwds) in enumerate(REAL_CONDITIONS):
                 if only is not None and ci != only:
                     continue
-                c = getattr(mt, name)(**kwds)
+                c = make_condition(name, kwds)
                 import io, sys
                 old = sys.stdout; sys.stdout = io.StringIO()
                 try:
@@ -926,7 +946,7 @@ def real_case(solver_name, cost_name, seed, steps, T=None, only=None):
                 if name == 'GradientNormTolerance':
                     exp = _real_gradient_ref(cost_name, solver, kwds)
                 else:
-                    exp = ref_any(name, kwds, stand)
+                    exp = ref_condition(name, kwds, stand)
                 if T is not None:
                     T.count('traces'); T.count('transitions', 6)
                     T.hist('R:' + name, {True: 'satisfied', False: 'unsatisfied', None: 'undecided_by_doc'}[exp])
@@ -937,6 +957,7 @@ def real_case(solver_name, cost_name, seed, steps, T=None, only=None):
                     sig = {'clause': 'inequality', 'factory': name, 'got': bool(r_real[0]), 'on': 'real_solver', 'solver': solver_name}
                     if name in HISTORY_FACTORIES:
                         sig['endpoints'] = ref.endpoint_class(ref.hkey(list(stand.energy_history), kwds.get('generations')))
+                        sig.update(_kw_sig(name, kwds))
                     if name in ('CandidateRelativeTolerance', 'PopulationSpread'):
                         sig['npop'] = 'one' if len(stand.population) < 2 else 'many'
                     out.append((sig, case, '%s gives %r, the documented inequality is %s (energy_history=%r)'
